@@ -1,0 +1,5 @@
+//go:build !verif
+
+package types
+
+func sealCheckDisabled() bool { return false }
